@@ -1,20 +1,28 @@
 import Mkdb.Driver.Util
+import Mkdb.Driver.LockTrace
 namespace Mkdb.Driver.Lock
 open Mkdb.Driver
 
 /-- The model's prediction for the lock scenario: a parked statement sees no page write, the storm
 finishes, the race detector stays quiet. -/
-def stepLine (_ : Unit) (line : String) : Unit × List String :=
+def stepLine (st : LockTrace.St) (line : String) : LockTrace.St × List String :=
   match words line with
-  | "park" :: _ => ((), ["ok parked-writes=0"])
-  | ["bulk", _] => ((), ["ok writes-inside-statement=0"])
-  | ["idle", _] => ((), ["ok"])
-  | ["slow-open"] => ((), ["ok"])
-  | ["storm"] => ((), ["done"])
-  | ["races"] => ((), ["races 0"])
-  | _ => ((), [])
+  | ["case", _] => ({}, [])
+  -- one recorded hook event of a real execution: the trace must be a run of the model of the discipline
+  | ["ev", role, kind] => let (st', out) := LockTrace.feed st role kind; (st', [out])
+  | "park" :: _ => (st, ["ok parked-writes=0"])
+  | ["bulk", _] => (st, ["ok writes-inside-statement=0"])
+  | ["idle", _] => (st, ["ok"])
+  | ["slow-open"] => (st, ["ok"])
+  | ["storm"] => (st, ["done"])
+  | ["races"] => (st, ["races 0"])
+  | _ => (st, [])
 
-def judgeLine (caseId : String) (op : String) (outs : List String) : String × List String :=
+structure J where
+  caseId : String := "?"
+  tr : LockTrace.St := {}
+
+def judgeLine1 (caseId : String) (op : String) (outs : List String) : String × List String :=
   match words op with
   | ["case", n] => (n, [])
   | "park" :: kind :: _ =>
@@ -48,5 +56,16 @@ def judgeLine (caseId : String) (op : String) (outs : List String) : String × L
       let frames := (outs.filter (·.startsWith "race-frame")).map fun l => (l.drop 11).toString
       (caseId, [s!"VIOLATION case={caseId} sig=lock:data-race got=[{o}] frames=[{(" <- ".intercalate (frames.take 8)).take 600}]"])
   | _ => (caseId, [])
+
+/-- the scenario verdicts, and the conformance of recorded traces with the model of the discipline -/
+def judgeLine (j : J) (op : String) (outs : List String) : J × List String :=
+  match words op with
+  | ["case", n] => ({ caseId := n }, [])
+  | ["ev", role, kind] =>
+    let was := j.tr.rejected.isSome
+    let (tr', out) := LockTrace.feed j.tr role kind
+    ({ j with tr := tr' },
+      if !was && out != "ok" then [s!"VIOLATION case={j.caseId} sig=lock:trace-not-a-run-of-the-discipline {out}"] else [])
+  | _ => let (c, vs) := judgeLine1 j.caseId op outs; ({ j with caseId := c }, vs)
 
 end Mkdb.Driver.Lock
